@@ -3,7 +3,10 @@
 (demo files under repo-relative paths, demo.cmd)."""
 import sys, os, re, shutil, glob
 pid, k = sys.argv[1], sys.argv[2]
-src = f"/tmp/mut-{pid}/MUTATION/{k}"; dst = f"/tmp/seed-in/{pid}-{k}"
+# optional: argv[3] = round prefix (e.g. "mut2"), seeds of round 2 are numbered k+2
+rnd = sys.argv[3] if len(sys.argv) > 3 else "mut"
+kk = int(k) + (2 if rnd == "mut2" else 0)
+src = f"/tmp/{rnd}-{pid}/MUTATION/{k}"; dst = f"/tmp/seed-in/{pid}-{kk}"
 shutil.rmtree(dst, ignore_errors=True); os.makedirs(dst + "/demo")
 shutil.copy(src + "/patch.diff", dst); shutil.copy(src + "/README.md", dst)
 readme = open(src + "/README.md").read()
